@@ -3530,6 +3530,7 @@ pub open spec fn sess_inv(s: Session) -> bool {
 /// the keep-alive interval comes from a u16 number of seconds (ConfigBuilder / Server Keep Alive)
 pub open spec fn rt_ok(rt: RuntimeState) -> bool { rt.keepalive_interval.ticks() <= 65535 * 1_000_000 }
 
+
 /// C18: what a handle reports, as a function of the session state
 pub open spec fn status_spec(s: Session, op: Op) -> OpStatus {
     if op.generation != s.data.generation { OpStatus::Invalidated }
@@ -5590,6 +5591,320 @@ where
         self.session.runtime.note_outbound_activity(Instant::now());
 
         Ok(None)
+    }
+}
+
+} // verus!
+
+// ======================================================================================
+// 80_handshake: src/mqtt_client/session/handshake.rs — Session::connect / connect_handshake
+// ======================================================================================
+verus! {
+
+pub struct Connect<'a> {
+    pub keepalive: u16,
+    pub properties: Properties<'a>,
+    pub client_id: Utf8String<'a>,
+    pub auth: Option<Auth<'a>>,
+    pub will: Option<Will<'a>>,
+    pub clean_start: bool,
+}
+/// value view of a CONNECT packet (what the encoder reads from the struct)
+pub struct WillView { pub topic: Seq<char>, pub data: Seq<u8>, pub qos: QoS, pub retained: Retain, pub properties: Seq<Property<'static>> }
+pub struct ConnectView {
+    pub keepalive: u16, pub properties: Seq<Property<'static>>, pub client_id: Seq<char>,
+    pub auth: Option<(Seq<char>, Seq<u8>)>, pub will: Option<WillView>, pub clean_start: bool,
+}
+pub open spec fn will_view(w: Will) -> WillView {
+    WillView { topic: w.topic.text(), data: w.data@, qos: w.qos, retained: w.retained, properties: w.properties@ }
+}
+pub open spec fn props_seq(p: Properties) -> Seq<Property<'static>> {
+    match p.inner { PropertiesData::Slice(s) => s@, _ => Seq::empty() }
+}
+pub open spec fn connect_view(c: Connect) -> ConnectView {
+    ConnectView {
+        keepalive: c.keepalive, properties: props_seq(c.properties), client_id: c.client_id.0@,
+        auth: match c.auth { Some(a) => Some((a.user_name@, a.password@)), None => None },
+        will: match c.will { Some(w) => Some(will_view(w)), None => None },
+        clean_start: c.clean_start,
+    }
+}
+pub uninterp spec fn enc_connect(v: ConnectView) -> Seq<u8>;
+impl Encodable for Connect<'_> {
+    open spec fn enc(&self) -> Seq<u8> { enc_connect(connect_view(*self)) }
+    open spec fn encodable(&self) -> bool { true }
+}
+/// C05/C09 (Appendix A.7): the CONNECT this session sends
+pub open spec fn connect_spec(s: Session) -> ConnectView {
+    ConnectView {
+        keepalive: (s.runtime.keepalive_interval.ticks() / 1_000_000) as u16,
+        properties: seq![
+            Property::MaximumPacketSize(rbuf(s.packet_reader).len() as u32),
+            Property::SessionExpiryInterval(s.session_expiry_interval),
+            Property::ReceiveMaximum(MAX_INBOUND_QOS2 as u16),
+        ],
+        client_id: s.client_id.text(),
+        auth: match s.auth { Some(a) => Some((a.user_name@, a.password@)), None => None },
+        will: match s.will { Some(w) => Some(will_view(w)), None => None },
+        clean_start: !s.data.session_present,
+    }
+}
+
+/// the property block of a CONNACK as the lazy iterator yields it (decoder leaf, bounded Kani check)
+pub uninterp spec fn props_items(p: Properties) -> Seq<Result<Property<'static>, PeerError>>;
+
+pub struct PropertiesIter<'a> { pub p: Properties<'a>, pub idx: Ghost<int> }
+impl<'a> Properties<'a> {
+    #[verifier::external_body]
+    pub fn iter(&'a self) -> (r: PropertiesIter<'a>)
+        ensures r.p == *self, r.idx@ == 0
+    { unimplemented!() }
+}
+impl<'a> PropertiesIter<'a> {
+    #[verifier::external_body]
+    pub fn next(&mut self) -> (r: Option<Result<Property<'a>, PeerError>>)
+        requires 0 <= old(self).idx@ <= props_items(old(self).p).len()
+        ensures final(self).p == old(self).p,
+            old(self).idx@ < props_items(old(self).p).len() ==> r == Some(props_items(old(self).p)[old(self).idx@]) && final(self).idx@ == old(self).idx@ + 1,
+            old(self).idx@ >= props_items(old(self).p).len() ==> r is None && final(self).idx@ == old(self).idx@,
+    { unimplemented!() }
+}
+
+pub struct QosTryFromError;
+impl TryFrom<u8> for QoS {
+    type Error = QosTryFromError;
+    #[verifier::external_body]
+    fn try_from(b: u8) -> (r: Result<QoS, QosTryFromError>) { unimplemented!() }
+}
+impl vstd::std_specs::convert::TryFromSpecImpl<u8> for QoS {
+    open spec fn obeys_try_from_spec() -> bool { true }
+    open spec fn try_from_spec(b: u8) -> Result<Self, QosTryFromError> {
+        if b == 0 { Ok(QoS::AtMostOnce) } else if b == 1 { Ok(QoS::AtLeastOnce) } else if b == 2 { Ok(QoS::ExactlyOnce) } else { Err(QosTryFromError) }
+    }
+}
+
+/// after arm_replay nothing is half-way on the wire: every entry is fresh
+pub proof fn lemma_armed_idle(o1: Outbound, o0: Outbound)
+    requires armed(o1, o0)
+    ensures no_in_progress(o1)
+{
+    assert forall|j: int| 0 <= j < o1.pending_control@.len() implies !prio((#[trigger] o1.pending_control@[j]).state, true) by {
+        assert(o1.pending_control@[j] == fresh_ctl(o0.pending_control@[j]));
+    }
+    assert forall|j: int| 0 <= j < o1.pending_release@.len() implies !prio((#[trigger] o1.pending_release@[j]).state, true) by {
+        assert(o1.pending_release@[j] == fresh_rel(o0.pending_release@[j]));
+    }
+    assert forall|j: int| 0 <= j < o1.retained@.len() implies !prio((#[trigger] o1.retained@[j]).state, true) by {
+        assert(o1.retained@[j] == fresh_ret(o0.retained@[j]));
+    }
+    lemma_ctl_idx_none(o1.pending_control@, true); lemma_rel_idx_none(o1.pending_release@, true); lemma_ret_idx_none(o1.retained@, true);
+}
+
+impl<'buf> Session<'buf> {
+#[verifier::exec_allows_no_decreases_clause]
+#[verifier::rlimit(100)]
+async fn connect_handshake(
+        &mut self,
+        connection: &mut VIo,
+    ) -> (r: Result<ConnectEvent, Error<IoErr>>)
+    requires
+        sess_inv(*old(self)) && no_in_progress(old(self).data.outbound),
+    ensures
+        sess_inv(*final(self)),
+        final(connection).wire@ == old(connection).wire@ || wire_ext(old(connection).wire@, final(connection).wire@, enc_connect(connect_spec(*old(self))), 0),
+        r is Ok ==> final(connection).wire@ == old(connection).wire@ + enc_connect(connect_spec(*old(self))),
+        r matches Ok(ev) ==> final(self).data.session_present && final(self).runtime.session_resumed == (ev == ConnectEvent::Reconnected),
+        r == Ok::<ConnectEvent, Error<IoErr>>(ConnectEvent::Connected) ==>
+            final(self).data.outbound.retained@.len() == 0 && final(self).data.outbound.pending_control@.len() == 0
+            && final(self).data.outbound.pending_release@.len() == 0 && final(self).data.pending_server_packet_ids@.len() == 0
+            && final(self).data.generation == (if old(self).data.generation == u32::MAX { 0 } else { (old(self).data.generation + 1) as u32 })
+            && final(self).data.packet_id.v == 1,
+        r == Ok::<ConnectEvent, Error<IoErr>>(ConnectEvent::Reconnected) ==>
+            same_entries(bv(final(self).data.outbound), final(self).data.outbound.retained@, bv(old(self).data.outbound), old(self).data.outbound.retained@)
+            && same_queues(final(self).data.outbound, old(self).data.outbound) && final(self).data.generation == old(self).data.generation
+            && final(self).data.pending_server_packet_ids@ == old(self).data.pending_server_packet_ids@,
+        r is Ok ==> 1 <= final(self).runtime.max_send_quota <= 8 && final(self).runtime.send_quota == final(self).runtime.max_send_quota,
+        r is Ok ==> final(self).runtime.ping_timeout is None,
+        r is Err ==> final(self).data.generation == old(self).data.generation || !final(self).data.session_present,
+        final(self).downgrade_qos == old(self).downgrade_qos && final(self).session_expiry_interval == old(self).session_expiry_interval
+            && final(self).will == old(self).will && final(self).auth == old(self).auth,
+{
+        let client_id = self.client_id.clone();
+        let properties = [
+            Property::MaximumPacketSize(self.packet_reader.buffer.len() as u32),
+            Property::SessionExpiryInterval(self.session_expiry_interval),
+            Property::ReceiveMaximum(self.data.pending_server_packet_ids.capacity() as u16),
+        ];
+        let will = self.will.clone();
+        let keepalive = self.runtime.keepalive_interval.as_secs() as u16;
+        let clean_start = !self.data.session_present;
+        let auth = self.auth;
+
+        {
+            let buffer = self.data.outbound.scratch_space();
+            (match write_packet(
+                buffer,
+                connection,
+                &Connect {
+                    keepalive,
+                    properties: Properties::from_slice(&properties),
+                    client_id: Utf8String(client_id.as_str()),
+                    auth,
+                    will,
+                    clean_start,
+                },
+            )
+            .await { Ok(__v) => __v, Err(__e) => return Err(From::from(__e)) });
+        }
+
+        self.runtime.next_ping = None;
+        self.runtime.ping_timeout = None;
+
+        if let Err(err) = fill_packet_reader(&mut self.packet_reader, connection).await {
+            match &err {
+                Error::Transport(err) => (),
+                Error::Disconnected => (),
+                _ => {}
+            }
+            self.handle_disconnect();
+            return Err(err);
+        }
+
+        let packet = match self.packet_reader.received_packet() {
+            Ok(packet) => packet,
+            Err(err) => {
+
+                self.handle_disconnect();
+                return Err(err.into());
+            }
+        };
+        let ack = match packet {
+            ReceivedPacket::ConnAck(ack) => ack,
+            ReceivedPacket::Disconnect(disconnect) => {
+
+                self.handle_disconnect();
+                return Err(Error::Disconnected);
+            }
+            _ => {
+                self.handle_disconnect();
+                return Err(Error::Peer(PeerError::InvalidPacket));
+            }
+        };
+
+        if let Err(err) = ack.reason_code.as_result() {
+
+            return Err(Error::Peer(err));
+        }
+
+        let resumed = ack.session_present;
+        if !resumed {
+
+            self.data.reset();
+        }
+
+        let local_quota = self.data.outbound.max_inflight();
+        let mut send_quota = local_quota;
+        let mut max_send_quota = local_quota;
+        let mut max_qos = None;
+        let mut maximum_packet_size = None;
+        let mut keepalive_interval = self.runtime.keepalive_interval;
+        let mut assigned_client_id: Option<String<64>> = None;
+
+        let mut property_result = Ok(()); 'iife1: loop 
+            invariant
+                1 <= max_send_quota <= 8, send_quota == max_send_quota, local_quota == 8,
+                keepalive_interval.ticks() <= 65535 * 1_000_000,
+{
+            let mut __it1 = ack.properties.iter(); loop 
+            invariant
+                0 <= __it1.idx@ <= props_items(__it1.p).len(),
+                1 <= max_send_quota <= 8, send_quota == max_send_quota, local_quota == 8,
+                keepalive_interval.ticks() <= 65535 * 1_000_000,
+{ let property = match __it1.next() { Some(__v) => __v, None => break };
+                match (match property { Ok(__v) => __v, Err(__e) => { property_result = Err(From::from(__e)); break 'iife1; } }) {
+                    Property::MaximumPacketSize(size) => maximum_packet_size = Some(size),
+                    Property::AssignedClientIdentifier(id) => {
+                        assigned_client_id =
+                            Some((match (match id.try_into() { Ok(__v) => Ok(__v), Err(_) => Err(PeerError::InvalidPacket) }) { Ok(__v) => __v, Err(__e) => { property_result = Err(From::from(__e)); break 'iife1; } }));
+                    }
+                    Property::ServerKeepAlive(keepalive) => {
+                        keepalive_interval = Duration::from_secs(keepalive as u64);
+                    }
+                    Property::ReceiveMaximum(max) => {
+                        if max == 0 {
+                            { property_result = Err(PeerError::InvalidPacket); break 'iife1; }
+                        }
+                        send_quota = max.min(local_quota);
+                        max_send_quota = max.min(local_quota);
+                    }
+                    Property::MaximumQoS(max) => {
+                        max_qos = Some((match (match QoS::try_from(max) { Ok(__v) => Ok(__v), Err(_) => Err(PeerError::InvalidPacket) }) { Ok(__v) => __v, Err(__e) => { property_result = Err(From::from(__e)); break 'iife1; } }));
+                    }
+                    _ => {}
+                }
+            }
+             break; }
+        if let Err(err) = property_result {
+            self.handle_disconnect();
+            return Err(Error::Peer(err));
+        }
+
+        self.runtime.session_resumed = resumed;
+        self.runtime.keepalive_interval = keepalive_interval;
+        self.runtime.send_quota = send_quota;
+        self.runtime.max_send_quota = max_send_quota;
+        self.runtime.max_qos = max_qos;
+        self.runtime.maximum_packet_size = maximum_packet_size;
+        if let Some(assigned_client_id) = assigned_client_id {
+            self.client_id = assigned_client_id;
+        }
+
+        self.data.mark_session_present();
+        self.runtime.note_outbound_activity(Instant::now());
+        self.runtime.ping_timeout = None;
+        if resumed {
+
+            Ok(ConnectEvent::Reconnected)
+        } else {
+
+            Ok(ConnectEvent::Connected)
+        }
+    }
+
+async fn connect(
+        &mut self,
+        io__0: VIo,
+    ) -> (r: Result<Connection<'_, 'buf>, Error<IoErr>>)
+    requires
+        sd_inv(old(self).data) && rt_ok(old(self).runtime) && rbuf(old(self).packet_reader).len() <= usize::MAX,
+    ensures
+        r matches Ok(c) ==> c.live && conn_inv(c)
+            && c.io.wire@.len() >= io__0.wire@.len()
+            && c.io.wire@.subrange(0, io__0.wire@.len() as int) =~= io__0.wire@,
+        r matches Ok(c) ==> exists|armed_state: Session| armed(armed_state.data.outbound, old(self).data.outbound)
+            && armed_state.data.session_present == old(self).data.session_present && cfg_same(armed_state, *old(self))
+            && armed_state.runtime.keepalive_interval == old(self).runtime.keepalive_interval
+            && rbuf(armed_state.packet_reader) == rbuf(old(self).packet_reader)
+            && #[trigger] enc_connect(connect_spec(armed_state)) =~= c.io.wire@.subrange(io__0.wire@.len() as int, c.io.wire@.len() as int),
+        r is Err ==> sess_inv(*final(self)),
+{ let mut io = io__0;
+
+        self.packet_reader.reset();
+        self.runtime.reset_transport();
+        self.data.outbound.arm_replay();
+        proof {
+            lemma_armed_w6(self.data.outbound, old(self).data.outbound);
+            lemma_armed_idle(self.data.outbound, old(self).data.outbound);
+        }
+        let ghost s1 = *self;
+
+        let event = (match self.connect_handshake(&mut io).await { Ok(__v) => __v, Err(__e) => return Err(From::from(__e)) });
+        Ok(Connection {
+            session: self,
+            io,
+            event,
+            live: true,
+        })
     }
 }
 
